@@ -413,6 +413,24 @@ def main(argv):
     a = ap.parse_args(argv)
     prop = a.prop
     tier = a.tier if a.tier in ('quick', 'thorough') else 'quick'
+    if a.replay:
+        # re-run the input recorded in a replay file against the real code built from the current tree: a witness script over TCP,
+        # or (no concrete input recorded) the obligations themselves
+        try:
+            rec = json.load(open(a.replay))
+        except Exception as e:
+            print('UNDECIDED cannot read replay file: %s' % e)
+            return 2
+        w = rec.get('witness')
+        if w and w.get('path') and os.path.exists(os.path.join(VERIF, 'replay', 'witness', os.path.basename(w['path']))):
+            w['path'] = os.path.join(VERIF, 'replay', 'witness', os.path.basename(w['path']))
+            rr = run_replay(w)
+            print(rr.get('output', '')[-1500:])
+            if rr.get('reproduced'):
+                print('VIOLATION property=%s replay=%s' % (prop, a.replay))
+                return 1
+            print('OK property=%s replay: the recorded script does not show the bad behaviour on this tree' % prop)
+            return 0
     t0 = time.time()
     seed = int(os.environ.get('VERIF_SEED', '0') or 0)
     meta = json.load(open(os.path.join(VERIF, 'props_meta.json')))
@@ -519,22 +537,35 @@ def main(argv):
                 violations.append(('replay', {'fn': w.get('function', '?'), 'kind': 'witness replay reproduces on the real server',
                                               'clause': w.get('what', ''), 'site': rel, 'rendered': rr.get('output', ''), 'tags': [prop],
                                               'props': [prop], 'panic_kind': False, 'replayed': True}))
-        # solver-seed sweep (information only: a proof that fails under another seed is brittle, not a violation)
+        # solver-seed sweep (information only: a proof that fails under another seed is brittle, not a violation); cached per tree
         try:
             import tempfile
-            sd = tempfile.mkdtemp(prefix='verif_seeds_', dir='/var/tmp')
-            for u in own_units:
-                pth, _ = extract.build_unit(world(u), u, sd)
-                for sdv in (1 + seed, 2 + seed):
-                    cmd = [VERUS, pth, '--output-json', '--triggers-mode', 'silent', '--rlimit', str(rlimit), '--num-threads', '4',
-                           '--smt-option', 'smt.random_seed=%d' % sdv]
+            cdir = os.path.join(VERIF, '.cache', key)
+            os.makedirs(cdir, exist_ok=True)
+            def _sweep(job):
+                u, sdv = job
+                cp = os.path.join(cdir, 'sweep_%s_%d_r%d.json' % (u, sdv, rlimit))
+                if os.path.exists(cp):
+                    return json.load(open(cp))
+                sd = tempfile.mkdtemp(prefix='verif_seeds_', dir='/var/tmp')
+                try:
+                    with EXTRACT_LOCK:
+                        pth, _ = extract.build_unit(world(u), u, sd)
+                    cmd = [VERUS, pth, '--output-json', '--triggers-mode', 'silent', '--rlimit', str(rlimit), '--num-threads', '2',
+                           '--smt-option', 'smt.random_seed=%d' % sdv, '--smt-option', 'sat.random_seed=%d' % sdv]
                     pr = subprocess.run(cmd, capture_output=True, text=True, cwd=sd, env=cargo_env())
                     try:
                         vr = json.loads(pr.stdout)['verification-results']
-                        seed_runs.append({'unit': u, 'seed': sdv, 'verified': vr.get('verified'), 'errors': vr.get('errors')})
+                        res_ = {'unit': u, 'seed': sdv, 'verified': vr.get('verified'), 'errors': vr.get('errors')}
                     except Exception:
-                        seed_runs.append({'unit': u, 'seed': sdv, 'verified': None, 'errors': None})
-            subprocess.run(['rm', '-rf', sd])
+                        res_ = {'unit': u, 'seed': sdv, 'verified': None, 'errors': None}
+                    json.dump(res_, open(cp, 'w'))
+                    return res_
+                finally:
+                    subprocess.run(['rm', '-rf', sd])
+            jobs = [(u, sdv) for u in own_units for sdv in (1 + seed, 2 + seed)]
+            with concurrent.futures.ThreadPoolExecutor(max_workers=6) as ex2:
+                seed_runs = list(ex2.map(_sweep, jobs))
         except Exception as e:  # never let the sweep decide anything
             seed_runs.append({'error': str(e)})
     # ---- bounded stand-ins (Kani) for functions outside the deductive verifier's reach: labelled bounded, never counted as proved
